@@ -32,8 +32,10 @@ LEVEL_TEXT = (
     "discretisation is accepted), returns for every draw a comparison can distinguish the option whose cumulative"
     " interval contains it - never a zero-weight option, leaving the caller's option and weight lists as they "
     "were - and, when the quantities are identifiable, draws strictly below the total for every total (affine). "
-    "(R4) NativeRandomSource draws only from a private random.Random(seed). A containment that fails is reported "
-    "only with an attainable witness or when it fails on every model."
+    "(R4) NativeRandomSource draws only from a private random.Random(seed). (R5) memo-key completeness "
+    "(sa/memo.py) over every method of the random sources and deciders: a table of ranges an implementation has "
+    "seen must be keyed by everything the remembered value depends on (a key 'max - min' does not determine min)."
+    " A containment that fails is reported only with an attainable witness or when it fails on every model."
 )
 
 MAXSIZE = "sys.maxsize"
